@@ -1,7 +1,220 @@
 /-
-Helper lemmas for Props/C12B.lean (Inflate).
+Helper lemmas for Props/C12B.lean (Inflate / BGZF / gzip peek): the inflate model inverts the stored-block encoder,
+CRC-32 stays below 2^32 on bytes, little-endian field round trips, one BGZF frame is read back by `bgzfBlock` and by
+`gunzipMember`, and the block loop of `bgzfDecode` concatenates the payloads. Core Lean only.
 -/
-import SfsModel.Model.Container
+import SfsModel.Spec.Container
 namespace Sfs
+
+theorem readHdr_final (xs : List Nat) :
+    BitRd.readBits 1 ⟨1 :: xs, 0⟩ = some (1, ⟨1 :: xs, 1⟩) := by
+  simp [BitRd.readBits, BitRd.readBit]
+
+theorem readHdr_final2 (xs : List Nat) :
+    BitRd.readBits 2 ⟨1 :: xs, 1⟩ = some (0, ⟨1 :: xs, 3⟩) := by
+  simp [BitRd.readBits, BitRd.readBit]
+
+theorem readHdr_nf (xs : List Nat) :
+    BitRd.readBits 1 ⟨0 :: xs, 0⟩ = some (0, ⟨0 :: xs, 1⟩) := by
+  simp [BitRd.readBits, BitRd.readBit]
+
+theorem readHdr_nf2 (xs : List Nat) :
+    BitRd.readBits 2 ⟨0 :: xs, 1⟩ = some (0, ⟨0 :: xs, 3⟩) := by
+  simp [BitRd.readBits, BitRd.readBit]
+
+theorem inflateStored_block (b : Nat) (chunk rest : List Nat) (out : Array Nat) (hl : chunk.length ≤ 65535) :
+    inflateStored ⟨b :: chunk.length % 256 :: chunk.length / 256 :: (65535 - chunk.length) % 256 ::
+        (65535 - chunk.length) / 256 :: (chunk ++ rest), 3⟩ out
+      = some (⟨rest, 0⟩, out ++ chunk.toArray) := by
+  have h2 : chunk.length % 256 + 256 * (chunk.length / 256) = chunk.length := by omega
+  simp [inflateStored, BitRd.align, h2]
+  omega
+
+theorem inflateBlocks_storedBlock (fin : Bool) (f : Nat) (chunk rest : List Nat) (out : Array Nat)
+    (hl : chunk.length ≤ 65535) :
+    inflateBlocks (f + 1) ⟨deflateStoredBlock fin chunk ++ rest, 0⟩ out =
+      if fin then some (⟨rest, 0⟩, out ++ chunk.toArray)
+      else inflateBlocks f ⟨rest, 0⟩ (out ++ chunk.toArray) := by
+  cases fin
+  · simp only [deflateStoredBlock, inflateBlocks, List.cons_append, List.nil_append, Bool.false_eq_true, if_false,
+      readHdr_nf, readHdr_nf2, if_true, inflateStored_block _ _ _ _ hl]
+    simp
+  · simp only [deflateStoredBlock, inflateBlocks, List.cons_append, List.nil_append, if_true,
+      readHdr_final, readHdr_final2, inflateStored_block _ _ _ _ hl]
+
+theorem deflateStored_length_ge (k : Nat) : ∀ data : List Nat, data.length ≤ 65535 * (k + 1) →
+    data.length ≤ (deflateStored k data).length := by
+  induction k with
+  | zero => intro data h; simp [deflateStored, deflateStoredBlock]; omega
+  | succ k ih =>
+    intro data h
+    unfold deflateStored
+    split
+    · simp [deflateStoredBlock]; omega
+    · have := ih (data.drop 65535) (by simp; omega)
+      simp [deflateStoredBlock] at this ⊢; omega
+
+theorem inflateBlocks_deflateStored (k : Nat) : ∀ (fuel : Nat) (data rest : List Nat) (out : Array Nat),
+    data.length ≤ 65535 * (k + 1) → 1 ≤ fuel → data.length ≤ 65535 * fuel →
+    inflateBlocks fuel ⟨deflateStored k data ++ rest, 0⟩ out = some (⟨rest, 0⟩, out ++ data.toArray) := by
+  induction k with
+  | zero =>
+    intro fuel data rest out h h1 _
+    obtain ⟨f, rfl⟩ : ∃ f, fuel = f + 1 := ⟨fuel - 1, by omega⟩
+    have ht : data.take 65535 = data := List.take_of_length_le (by omega)
+    rw [deflateStored, ht, inflateBlocks_storedBlock _ _ _ _ _ (by omega)]; rfl
+  | succ k ih =>
+    intro fuel data rest out h h1 h2
+    obtain ⟨f, rfl⟩ : ∃ f, fuel = f + 1 := ⟨fuel - 1, by omega⟩
+    unfold deflateStored
+    split
+    · rename_i hle
+      rw [inflateBlocks_storedBlock _ _ _ _ _ hle]; rfl
+    · rename_i hgt
+      rw [List.append_assoc, inflateBlocks_storedBlock _ _ _ _ _ (by simp; omega)]
+      simp only [Bool.false_eq_true, if_false]
+      rw [ih f _ _ _ (by simp; omega) (by omega) (by simp; omega)]
+      simp
+
+theorem inflate_deflateStored (data rest : List Nat) (k : Nat) (hk : data.length ≤ 65535 * (k + 1)) :
+    inflate (deflateStored k data ++ rest) = some (data, rest) := by
+  have hl := deflateStored_length_ge k data hk
+  unfold inflate
+  rw [inflateBlocks_deflateStored k _ data rest #[] hk (by omega) (by simp; omega)]
+  simp [BitRd.align]
+
+
+theorem crcStep_lt (c : Nat) (h : c < 2 ^ 32) : crcStep c < 2 ^ 32 := by
+  unfold crcStep
+  split
+  · exact Nat.xor_lt_two_pow (by omega) (by omega)
+  · omega
+
+theorem crcByte_lt (c b : Nat) (h : c < 2 ^ 32) (hb : b < 256) : crcByte c b < 2 ^ 32 := by
+  unfold crcByte
+  have h0 : c ^^^ b < 2 ^ 32 := Nat.xor_lt_two_pow h (by omega)
+  exact crcStep_lt _ (crcStep_lt _ (crcStep_lt _ (crcStep_lt _ (crcStep_lt _ (crcStep_lt _ (crcStep_lt _
+    (crcStep_lt _ h0)))))))
+
+theorem foldl_crcByte_lt (data : List Nat) : ∀ c, c < 2 ^ 32 → IsBytes data →
+    data.foldl crcByte c < 2 ^ 32 := by
+  induction data with
+  | nil => intro c h _; simpa using h
+  | cons b t ih =>
+    intro c h hb
+    simp only [List.foldl_cons]
+    exact ih _ (crcByte_lt c b h (hb b (by simp))) (fun x hx => hb x (by simp [hx]))
+
+theorem crc32_lt (data : List Nat) (hb : IsBytes data) : crc32 data < 2 ^ 32 := by
+  unfold crc32
+  exact Nat.xor_lt_two_pow (foldl_crcByte_lt data _ (by omega) hb) (by omega)
+
+theorem le32_toLe32 (n : Nat) (h : n < 2 ^ 32) :
+    le32 (n % 256) (n / 256 % 256) (n / 65536 % 256) (n / 16777216 % 256) = n := by
+  unfold le32; omega
+
+theorem le16_toLe16 (n : Nat) (h : n < 65536) : le16 (n % 256) (n / 256 % 256) = n := by
+  unfold le16; omega
+
+theorem bgzfFrame_eq (cdata payload : List Nat) (rest : List Nat) :
+    bgzfFrame cdata payload ++ rest =
+      0x1f :: 0x8b :: 8 :: 4 :: 0 :: 0 :: 0 :: 0 :: 0 :: 0xff :: 6 :: 0 :: 66 :: 67 :: 2 :: 0 ::
+        ((cdata.length + 25) % 256) :: ((cdata.length + 25) / 256 % 256) ::
+        (cdata ++ (toLe32 (crc32 payload) ++ toLe32 payload.length ++ rest)) := by
+  simp [bgzfFrame, toLe16]
+
+theorem bgzfBlock_frame (cdata payload t rest : List Nat) (hinf : inflate cdata = some (payload, t))
+    (hc : cdata.length + 25 < 65536) (hb : IsBytes payload) (hl : payload.length < 2 ^ 32) :
+    bgzfBlock (bgzfFrame cdata payload ++ rest) = some (payload, rest) := by
+  rw [bgzfFrame_eq]
+  have hcrc := le32_toLe32 _ (crc32_lt payload hb)
+  have hlen := le32_toLe32 _ hl
+  have h16 := le16_toLe16 _ hc
+  simp [bgzfBlock, h16, toLe32, hinf, hcrc, hlen]
+
+
+theorem deflateStored_zero_length (c : List Nat) (h : c.length ≤ 65535) :
+    (deflateStored 0 c).length = c.length + 5 := by
+  simp [deflateStored, deflateStoredBlock]; omega
+
+theorem bgzfBlock_stored (payload rest : List Nat) (hb : IsBytes payload) (hl : payload.length ≤ 65280) :
+    bgzfBlock (bgzfFrame (deflateStored 0 payload) payload ++ rest) = some (payload, rest) := by
+  have hi := inflate_deflateStored payload [] 0 (by omega)
+  rw [List.append_nil] at hi
+  exact bgzfBlock_frame _ _ _ _ hi (by rw [deflateStored_zero_length _ (by omega)]; omega) hb (by omega)
+
+theorem bgzfFrame_isEmpty (cdata payload rest : List Nat) :
+    (bgzfFrame cdata payload ++ rest).isEmpty = false := by
+  rw [bgzfFrame_eq]; rfl
+
+theorem bgzfEncodeStored_cons (c : List Nat) (cs : List (List Nat)) :
+    bgzfEncodeStored (c :: cs) = bgzfFrame (deflateStored 0 c) c ++ bgzfEncodeStored cs := by
+  simp [bgzfEncodeStored]
+
+theorem bgzfFrame_length (cdata payload : List Nat) :
+    (bgzfFrame cdata payload).length = cdata.length + 26 := by
+  simp [bgzfFrame, toLe16, toLe32]
+
+theorem bgzfEncodeStored_length_ge (chunks : List (List Nat)) :
+    chunks.length + 1 ≤ (bgzfEncodeStored chunks).length := by
+  induction chunks with
+  | nil => simp [bgzfEncodeStored, bgzfFrame_length]
+  | cons c cs ih => rw [bgzfEncodeStored_cons]; simp [bgzfFrame_length]; omega
+
+theorem bgzfDecode_encodeStored (chunks : List (List Nat)) :
+    ∀ fuel, chunks.length + 2 ≤ fuel → (∀ c ∈ chunks, IsBytes c ∧ c.length ≤ 65280) →
+    bgzfDecode fuel (bgzfEncodeStored chunks) = some chunks.flatten := by
+  induction chunks with
+  | nil =>
+    intro fuel hf _
+    obtain ⟨f, rfl⟩ : ∃ f, fuel = f + 2 := ⟨fuel - 2, by omega⟩
+    have : bgzfEncodeStored [] = bgzfFrame (deflateStored 0 []) [] ++ [] := by simp [bgzfEncodeStored]
+    rw [this, bgzfDecode, bgzfFrame_isEmpty, bgzfBlock_stored [] [] (by intro b hb; simp at hb) (by simp)]
+    simp [bgzfDecode]
+  | cons c cs ih =>
+    intro fuel hf h
+    obtain ⟨f, rfl⟩ : ∃ f, fuel = f + 1 := ⟨fuel - 1, by omega⟩
+    have hc := h c (by simp)
+    rw [bgzfEncodeStored_cons, bgzfDecode, bgzfFrame_isEmpty, bgzfBlock_stored c _ hc.1 hc.2]
+    simp only [Bool.false_eq_true, if_false]
+    rw [ih f (by simp at hf; omega) (fun x hx => h x (by simp [hx]))]
+    simp
+
+theorem bgzfDecodeAll_encodeStored (chunks : List (List Nat))
+    (h : ∀ c ∈ chunks, IsBytes c ∧ c.length ≤ 65280) :
+    bgzfDecodeAll (bgzfEncodeStored chunks) = some chunks.flatten := by
+  unfold bgzfDecodeAll
+  exact bgzfDecode_encodeStored chunks _ (by have := bgzfEncodeStored_length_ge chunks; omega) h
+
+theorem gunzipMember_bgzf (m0 m1 m2 m3 m4 m5 e0 e1 e2 e3 e4 e5 c0 c1 c2 c3 s0 s1 s2 s3 : Nat)
+    (r data after : List Nat)
+    (hi : inflate r = some (data, c0 :: c1 :: c2 :: c3 :: s0 :: s1 :: s2 :: s3 :: after))
+    (hcrc : le32 c0 c1 c2 c3 = crc32 data) (hlen : le32 s0 s1 s2 s3 = data.length % 4294967296) :
+    gunzipMember (0x1f :: 0x8b :: 8 :: 4 :: m0 :: m1 :: m2 :: m3 :: m4 :: m5 :: 6 :: 0 ::
+      e0 :: e1 :: e2 :: e3 :: e4 :: e5 :: r) = some (data, after) := by
+  have h6 : ¬ (r.length + 1 + 1 + 1 + 1 + 1 + 1 < 6) := by omega
+  simp [gunzipMember, le16, h6, hi, hcrc, hlen]
+
+theorem gunzipMember_frame (c tail : List Nat) (hb : IsBytes c) (hl : c.length ≤ 65280) :
+    gunzipMember (bgzfFrame (deflateStored 0 c) c ++ tail) = some (c, tail) := by
+  rw [bgzfFrame_eq]
+  have hi := inflate_deflateStored c (toLe32 (crc32 c) ++ toLe32 c.length ++ tail) 0 (by omega)
+  have hcrc := le32_toLe32 _ (crc32_lt c hb)
+  have hlen := le32_toLe32 c.length (by omega)
+  have hmod : c.length % 4294967296 = c.length := by omega
+  simp only [toLe32, List.cons_append, List.nil_append] at hi ⊢
+  exact gunzipMember_bgzf _ _ _ _ _ _ _ _ _ _ _ _ _ _ _ _ _ _ _ _ _ _ _ hi hcrc (by rw [hmod]; exact hlen)
+
+theorem inflate3_encodeStored (c : List Nat) (cs : List (List Nat)) (hb : IsBytes c)
+    (hc : 3 ≤ c.length ∧ c.length ≤ 65280) :
+    inflate3 ((bgzfEncodeStored (c :: cs)).take 65536) = some (c.take 3) := by
+  have hfl : (bgzfFrame (deflateStored 0 c) c).length ≤ 65536 := by
+    rw [bgzfFrame_length, deflateStored_zero_length c (by omega)]; omega
+  rw [bgzfEncodeStored_cons, List.take_append, List.take_of_length_le hfl]
+  unfold inflate3
+  rw [gunzipPrefix]
+  rw [gunzipMember_frame c _ hb hc.2]
+  simp
+  omega
 
 end Sfs
